@@ -14,6 +14,7 @@
 import Jb.Proofs.Hts
 import Jb.Props.C20
 import Jb.Proofs.ParseShape
+import Jb.Proofs.RoundTrip
 
 set_option linter.unusedSectionVars false
 
@@ -92,5 +93,34 @@ theorem accepted_tree_total (qs : Questions) (t : FileTree) (hwf : TreeWF t) (hn
     (r : Nat × List TNode) (hc : convertTree true qs t = .ok r) (label : List Char) :
     ∃ k, evalTree qs t label = some k :=
   evalTree_total_of_wf qs t hwf hne r hc label
+
+/-! ### read-back: the reader returns exactly what a writer wrote (`Jb/Proofs/RoundTrip.lean`) -/
+
+/-- a little-endian word is read back bit for bit -/
+theorem word_read_back (w : UInt32) : u32le (u32bytes w) = w := u32le_u32bytes w
+
+/-- **the float32 entries of a PDF are read back bit for bit**: means | variances | optional voicing weight, for every PDF
+    with as many variances as means -/
+theorem pdf_read_back (p : PdfBits) (h : p.means.length = p.varis.length) : fromLinear (linearOf p) = p :=
+  fromLinear_linearOf p h
+
+/-- **the whole PDF block** (per-tree counts, then every PDF of every tree) written for `n` coefficients per PDF, with or
+    without a voicing weight, is read back exactly — any number of trees, any number of PDFs per tree (< 2³²) -/
+theorem pdf_block_read_back (pdfs : List (List PdfBits)) (n : Nat) (msd : Bool)
+    (hshape : ∀ ps ∈ pdfs, ∀ p ∈ ps, p.means.length = n ∧ p.varis.length = n ∧ p.msd.isSome = msd)
+    (hcount : ∀ ps ∈ pdfs, ps.length < 2 ^ 32) :
+    parsePdfBlock (pdfBlockBytes pdfs) pdfs.length (2 * n + (if msd then 1 else 0)) = some pdfs :=
+  parsePdfBlock_pdfBlockBytes pdfs n msd hshape hcount
+
+/-- a window row `count c₁ … c_count` is read back as the coefficient texts written -/
+theorem window_row_read_back (cs : List String) (h : ∀ c ∈ cs, isDoubleText (bytesOf c) = true) (hn : cs.length < 2 ^ 64) :
+    parseWindow (windowRowBytes cs) = some cs :=
+  parseWindow_windowRowBytes cs h hn
+
+/-- header numbers and `a-b` byte ranges are read back (within the reader's 64-bit guard) -/
+theorem header_number_read_back (guarded strict : Bool) (n : Nat) (h : n < 2 ^ 64) :
+    headerNat guarded strict (natBytes n) = .ok n := headerNat_natBytes guarded strict n h
+theorem header_range_read_back (guarded : Bool) (a b : Nat) (ha : a < 2 ^ 64) (hb : b < 2 ^ 64) :
+    headerPair guarded (natBytes a ++ 45 :: natBytes b) = .ok (a, b) := headerPair_natBytes guarded a b ha hb
 
 end Jb.C04
